@@ -196,7 +196,7 @@ pub fn snapshot(root: &Path) -> Snapshot {
         for e in ents {
             let p = e.path();
             let Ok(md) = fs::symlink_metadata(&p) else { continue };
-            let rel = p.strip_prefix(root).unwrap().as_os_str().as_bytes().to_vec();
+            let rel = esc_bytes(p.strip_prefix(root).unwrap().as_os_str().as_bytes());
             let ft = md.file_type();
             let kind = if ft.is_dir() {
                 'd'
@@ -272,7 +272,7 @@ pub struct Tree {
 impl Tree {
     pub fn write_to(&self, root: &Path) {
         for (p, f) in &self.files {
-            let fp = root.join(p);
+            let fp = root.join(os(p));
             if let Some(par) = fp.parent() {
                 fs::create_dir_all(par).expect("mkdir");
             }
@@ -283,7 +283,7 @@ impl Tree {
 }
 
 pub fn write_file(root: &Path, rel: &str, data: &[u8]) {
-    let fp = root.join(rel);
+    let fp = root.join(os(rel));
     if let Some(par) = fp.parent() {
         fs::create_dir_all(par).expect("mkdir");
     }
@@ -338,6 +338,67 @@ pub fn osstr(s: &str) -> OsString {
     OsString::from(s)
 }
 
+// File names that are not UTF-8. Model names stay `String`s: a character U+F780..U+F7FF (private use)
+// stands for the single raw byte 0x80..0xFF ("surrogate escape"). The translation happens only where names
+// leave or enter the model: `os`/`unesc` when a model name goes to disk or into patch text, `esc_bytes`
+// when a name comes back from disk (snapshot keys) or from the tool's parser.
+pub const RAW_BASE: u32 = 0xF700;
+
+/// Model name -> the bytes of the real name.
+pub fn unesc(p: &str) -> Vec<u8> {
+    let mut v = Vec::with_capacity(p.len());
+    let mut buf = [0u8; 4];
+    for c in p.chars() {
+        let u = c as u32;
+        if (RAW_BASE + 0x80..=RAW_BASE + 0xFF).contains(&u) {
+            v.push((u - RAW_BASE) as u8);
+        } else {
+            v.extend_from_slice(c.encode_utf8(&mut buf).as_bytes());
+        }
+    }
+    v
+}
+
+/// Model name -> OS name.
+pub fn os(p: &str) -> OsString {
+    use std::os::unix::ffi::OsStringExt;
+    OsString::from_vec(unesc(p))
+}
+
+/// Real name bytes -> the UTF-8 bytes of the model name (every byte that is not part of valid UTF-8 escaped).
+pub fn esc_bytes(mut b: &[u8]) -> Vec<u8> {
+    let mut out = Vec::with_capacity(b.len());
+    let mut buf = [0u8; 4];
+    loop {
+        match std::str::from_utf8(b) {
+            Ok(s) => {
+                out.extend_from_slice(s.as_bytes());
+                return out;
+            }
+            Err(e) => {
+                let (good, rest) = b.split_at(e.valid_up_to());
+                out.extend_from_slice(good);
+                let c = char::from_u32(RAW_BASE + rest[0] as u32).unwrap();
+                out.extend_from_slice(c.encode_utf8(&mut buf).as_bytes());
+                b = &rest[1..];
+            }
+        }
+    }
+}
+
+/// Real name bytes -> model name.
+pub fn name_str(b: &[u8]) -> String {
+    String::from_utf8(esc_bytes(b)).unwrap()
+}
+
+/// What the tool prints for a model name (`Path::display`: U+FFFD for every byte that is not UTF-8).
+pub fn shown(p: &str) -> String {
+    p.chars().map(|c| if (RAW_BASE + 0x80..=RAW_BASE + 0xFF).contains(&(c as u32)) { '\u{fffd}' } else { c }).collect()
+}
+
+/// Set by the properties whose generators may use names that are not UTF-8.
+pub static RAW_NAMES: std::sync::atomic::AtomicBool = std::sync::atomic::AtomicBool::new(false);
+
 pub fn lossy(b: &[u8]) -> String {
     let s = String::from_utf8_lossy(b);
     if s.len() > 600 {
@@ -352,7 +413,7 @@ pub fn rm_rf(p: &Path) {
 }
 
 pub fn path_of(root: &Path, rel: &str) -> PathBuf {
-    root.join(rel)
+    root.join(os(rel))
 }
 
 /// A quilt workspace to materialise: tree + patches/ + series (+ prior .pc/applied-patches)
@@ -379,10 +440,10 @@ impl WsSpec {
         fs::create_dir_all(root).expect("mkdir ws");
         self.tree.write_to(root);
         for d in &self.dirs {
-            fs::create_dir_all(root.join(d)).expect("mkdir extra");
+            fs::create_dir_all(root.join(os(d))).expect("mkdir extra");
         }
         for (p, t) in &self.symlinks {
-            let full = root.join(p);
+            let full = root.join(os(p));
             if let Some(par) = full.parent() {
                 fs::create_dir_all(par).expect("mkdir for symlink");
             }
